@@ -207,7 +207,13 @@ impl<TStdlib: Stdlib, TStdIn: Input, TStdOut: Printer, TLpt1: Printer> Interpret
                 },
                 Err(e) => {
                     self.last_error_code = Some(e.err().get_code());
-                    match ctx.error_handler {
+                    // an error inside an error handler (before it resumes) is not handled again
+                    let error_handler = if self.last_error_address.is_some() {
+                        ErrorHandler::None
+                    } else {
+                        ctx.error_handler
+                    };
+                    match error_handler {
                         ErrorHandler::Address(handler_address) => {
                             // store error address, so we can call RESUME and RESUME NEXT from within the error handler
                             self.context.push_error_handler_context();
